@@ -70,6 +70,11 @@ func sigsOf(kind string, r pool.Result) []string {
 	if r.Panic != "" {
 		return []string{"panic/" + kind + "/" + firstLine(r.Panic)}
 	}
+	if r.Err == "worker died" {
+		if sig, ok := processDeath(r.Dump); ok {
+			return []string{sig}
+		}
+	}
 	if r.Timeout || r.Err != "" {
 		return nil
 	}
